@@ -102,7 +102,12 @@ class Unit:
         if alias not in self.sources:
             raise TemplateError('unknown source alias %s' % alias)
         if alias not in self.src_cache:
-            p = os.path.join(self.repo, self.sources[alias])
+            rel = self.sources[alias]
+            if rel.startswith('verif:'):
+                # proof-side Rust text kept in /verif (e.g. a reference implementation used as a Kani oracle)
+                p = os.path.join(os.path.dirname(os.path.dirname(os.path.dirname(self.path))), rel[6:])
+            else:
+                p = os.path.join(self.repo, rel)
             self.src_cache[alias] = Source(p)
         return self.src_cache[alias]
 
